@@ -380,6 +380,56 @@ def _escapes(cx, fn, allowed):
     return out
 
 
+REWRITES = ("strip", "rstrip", "lstrip", "replace", "lower", "upper", "expandtabs", "translate", "title", "casefold", "swapcase", "capitalize", "format", "sub", "subn",
+            "removeprefix", "removesuffix", "zfill", "center", "ljust", "rjust")
+
+
+def _text_rewrites(e, fn, depth=0, seen=None):
+    """Calls that rewrite text on the value flow of ``e`` (through joins, slices, comprehension elements - not their filters - and single local
+    assignments)."""
+    seen = seen if seen is not None else set()
+    out = []
+    if depth > 8 or e is None:
+        return out
+    if isinstance(e, ast.Name):
+        if e.id in seen:
+            return out
+        seen.add(e.id)
+        for a in assigns_to(fn, e.id):
+            v = getattr(a, "value", None)
+            if v is not None and isinstance(a, ast.Assign):
+                out += _text_rewrites(v, fn, depth + 1, seen)
+        for c in [n for n in ast.walk(fn) if isinstance(n, ast.comprehension) and any(isinstance(t, ast.Name) and t.id == e.id for t in ast.walk(n.target))]:
+            out += _text_rewrites(c.iter, fn, depth + 1, seen)
+        return out
+    if isinstance(e, (ast.ListComp, ast.GeneratorExp, ast.SetComp)):
+        out += _text_rewrites(e.elt, fn, depth + 1, seen)
+        for g in e.generators:
+            out += _text_rewrites(g.iter, fn, depth + 1, seen)
+        return out
+    if isinstance(e, ast.Subscript):
+        return _text_rewrites(e.value, fn, depth + 1, seen)
+    if isinstance(e, ast.IfExp):
+        return _text_rewrites(e.body, fn, depth + 1, seen) + _text_rewrites(e.orelse, fn, depth + 1, seen)
+    if isinstance(e, ast.BinOp):
+        return _text_rewrites(e.left, fn, depth + 1, seen) + _text_rewrites(e.right, fn, depth + 1, seen)
+    if isinstance(e, ast.Call):
+        if isinstance(e.func, ast.Attribute) and e.func.attr == "join":
+            for a in e.args:
+                out += _text_rewrites(a, fn, depth + 1, seen)
+            return out
+        if isinstance(e.func, ast.Attribute) and e.func.attr in REWRITES:
+            return [e]
+        if call_name(e) in ("re.sub", "re.subn"):
+            return [e]
+        if isinstance(e.func, ast.Attribute):
+            out += _text_rewrites(e.func.value, fn, depth + 1, seen)
+        for a in e.args:
+            out += _text_rewrites(a, fn, depth + 1, seen)
+        return out
+    return out
+
+
 def r4_escape_sets(cx):
     cx.rule("C14.R4", "JSON and YAML base parsers raise only SkipComponent or ParseException", floor=8)
     m = cx.repo.module(CORE)
@@ -419,6 +469,13 @@ def r4_escape_sets(cx):
         for a in walk_body(fn.body):
             if isinstance(a, ast.Assign) and any(U(t) == "self.data" for t in a.targets):
                 cx.require(isinstance(a.value, ast.Call) and call_name(a.value) == loader, a, "%s: self.data is exactly the loader's result" % q)
+    # the loader is handed the document's own text: lines may be selected (noise before the start, ignored lines), never rewritten
+    for q, loader in (("JSONParser.parse_content", "json.loads"), ("YAMLParser.parse_content", "yaml.load")):
+        fn = m.func(q, "C14.R4")
+        for x in [c for c in find_calls(fn.body) if call_name(c) == loader and c.args]:
+            tr_ = _text_rewrites(x.args[0], fn)
+            cx.require(not tr_, tr_[0] if tr_ else x, "%s: the text handed to %s is made of the content's lines unchanged (selection only; trailing blanks are significant inside YAML block scalars and JSON strings)" % (q, loader),
+                       construct=short(tr_[0], 80) if tr_ else short(x, 80))
     # JSON noise lines
     jf = m.func("JSONParser.parse_content", "C14.R4")
     sl = [a for a in walk_body(jf.body) if isinstance(a, ast.Assign) and U(a.targets[0]) == "self.data" and "actual_start_index" in U(a.value)]
